@@ -94,11 +94,45 @@ def gen_frames(ctx):
     for n in (2030, 2031, 2035, 2036, 2040, 3000):
         out.append([3, [16, None, False], [1, None, True], bytes(r.getrandbits(8) for _ in range(n)), False, True, 1, 2])
         out.append([5, [16, None, False], [1, 17, True], bytes(r.choice([0x7e, r.getrandbits(8)]) for _ in range(n)), True, False, 0, 0])
+    # frames whose check sequences contain the flag byte (and 00 / FF) in each of their positions: found by search
+    out += crafted_check_sequences(r)
     # outside the round-trip domain (known findings / refusals), still compared with the model
     out += [[1, [16, None, False], [1, None, True], b"ab", True, True, 0, 0], [2, [16, None, False], [1, None, True], None, True, False, 0, 3],
             [4, [1, None, True], [16, None, False], None, True, False, 0, 0], [0, [1, None, True], [16, None, False], b"xx", True, False, 0, 0],
             [3, [16, None, False], [1, None, True], b"x", False, True, 8, 0], [3, [16, None, False], [1, None, True], b"x", False, True, 0, -1],
             [2, [16, None, False], [1, None, True], None, False, True, 0, 9], [3, [16, 5, False], [200, None, True], b"x", False, True, 0, 0]]
+    return out
+
+
+def crafted_check_sequences(r):
+    """for every frame kind: frames whose FCS (and, where there is one, HCS) has 0x7E / 0x00 / 0xFF as first and as last byte"""
+    out, want = [], {}
+    for k in (1, 2, 3, 4, 5):
+        for pos in ("fcs0", "fcs1", "hcs0", "hcs1"):
+            for val in (0x7E, 0x00, 0xFF):
+                want[(k, pos, val)] = None
+    for _ in range(60000):
+        if all(v is not None for v in want.values()):
+            break
+        k = r.choice([1, 2, 3, 4, 5])
+        srv = [r.randrange(128), r.choice([None, r.randrange(128), r.randrange(16384)]), True]
+        if srv[1] is not None and srv[1] > 127:
+            srv[0] = r.randrange(16384)
+        cl = [r.randrange(128), None, False]
+        dest, src = (srv, cl) if k == 4 else (cl, srv)
+        payload = bytes(r.getrandbits(8) for _ in range(r.randrange(1, 6))) if k in (1, 3, 5) else None
+        a = [k, dest, src, payload, False, True, r.randrange(8) if k == 3 else 0, r.randrange(8) if k in (2, 3) else 0]
+        b = impl("frame_make_to_bytes", a)
+        if not isinstance(b, bytes):
+            continue
+        found = {"fcs0": b[-3], "fcs1": b[-2]}
+        if payload:
+            h = len(b) - 3 - len(payload) - 2
+            found["hcs0"], found["hcs1"] = b[h], b[h + 1]
+        for pos, v in found.items():
+            if (k, pos, v) in want and want[(k, pos, v)] is None:
+                want[(k, pos, v)] = a
+                out.append(a)
     return out
 
 
